@@ -24,7 +24,7 @@ import (
 // an allocation out of proportion is a violation.
 
 type Mutation struct {
-	Kind string `json:"kind"` // flip | set | trunc | zero | splice | u24 | footer-field | header-sync | crcfix | extend | redirect
+	Kind string `json:"kind"` // flip | set | trunc | zero | splice | u24 | footer-field | header-sync | crcfix | extend | redirect | varint
 	Off  int    `json:"off,omitempty"`
 	Len  int    `json:"len,omitempty"`
 	Val  uint64 `json:"val,omitempty"`
@@ -206,6 +206,36 @@ func ApplyMutations(orig []byte, muts []Mutation, other []byte) []byte {
 			fixCRC(b)
 		case "redirect":
 			redirectOffset(b, m)
+		case "varint":
+			// a k-byte varint (k = 2..5) of the largest or smallest value
+			// that needs k bytes, written over whatever is there - half of
+			// the time inside the object section, whose records carry
+			// varint counts and position deltas
+			k := 2 + m.Len%4
+			o := m.Off % n
+			if m.Val&1 == 1 {
+				if ci, err := ValidateContainer(b); err == nil && ci.ObjOff > 0 {
+					end := uint64(n)
+					for _, e := range []uint64{ci.ObjIndexOff, ci.LogOff, ci.LogIndexOff} {
+						if e > ci.ObjOff && e < end {
+							end = e
+						}
+					}
+					if end > ci.ObjOff {
+						o = int(ci.ObjOff) + m.Off%int(end-ci.ObjOff)
+					}
+				}
+			}
+			for i := 0; i < k && o+i < n; i++ {
+				v := byte(0xff)
+				if m.Val&2 == 2 {
+					v = 0x80
+				}
+				if i == k-1 {
+					v &= 0x7f
+				}
+				b[o+i] = v
+			}
 		}
 	}
 	return b
@@ -342,6 +372,8 @@ func GenCorrupt(prop string, seed uint64) *RunSpec {
 		}
 		if (bigTable && r.Bool(0.6)) || r.Bool(0.04) {
 			m.Kind = "redirect"
+		} else if r.Bool(0.06) {
+			m.Kind = "varint"
 		}
 		cs.Muts = append(cs.Muts, m)
 	}
